@@ -29,7 +29,7 @@ LEVEL_NOTE = "Outputs are re-read with flowmark's own parser (tightness is Marko
 ASSUMPTIONS = ["documents come from the shared grammar restricted to the feature set in vf/docdomain.py plus the heading forms listed in the rule"]
 BUDGET = {"quick": 90, "thorough": 1500}
 
-HEADINGS = ["**Whole bold**", "**a** and text", "***bold italic***", "_**nested**_", "**_other nesting_**", "**a** **b**", "**[link](u)**", "**`code`**", "plain",
+HEADINGS = ["__Underscore bold__", "___under bold italic___", "**Whole bold**", "**a** and text", "***bold italic***", "_**nested**_", "**_other nesting_**", "**a** **b**", "**[link](u)**", "**`code`**", "plain",
             "**bold** #", "*italic only*", "**a**b", "~~**x**~~", "**Bold with \"quotes\"...**", "**中文**"]
 
 
@@ -105,6 +105,14 @@ def check_case(case: dict, note: Note) -> Failure | None:
         return None
     if kind == "spacing":
         outs = {m: opts.fmt(x, dict(base, list_spacing=m)) for m in ("preserve", "loose", "tight")}
+        # the mode given as a plain string (as a config file or an API caller provides it) means the same
+        from flowmark.linewrapping.markdown_filling import fill_markdown
+
+        for m in ("preserve", "loose", "tight"):
+            kw = {k: v for k, v in base.items() if k != "list_spacing"}
+            as_str = fill_markdown(x, list_spacing=m, **kw)  # type: ignore[arg-type]
+            if as_str != outs[m]:
+                return Failure("mode-as-plain-string-differs", f"input={_show(x)}\nopts={base}\nlist_spacing={m!r} as str: {_show(as_str)}\nas enum: {_show(outs[m])}")
         cin = canon.canon_in(x, tight=True)[1]
         trees = {m: canon.canon_out(o_, tight=True)[1] for m, o_ in outs.items()}
         plain = {m: canon.canon_out(o_)[1] for m, o_ in outs.items()}
@@ -168,6 +176,10 @@ def _nested_list(draw, depth: int, indent: str = ""):
             lines += ["", indent + pad + "```", indent + pad + "code", indent + pad + "```"]
         elif extra == 2:
             lines += [indent + pad + "> quoted"]
+        elif extra == 3:
+            lines[-1] = indent + marker + " > # Quoted heading"  # the item is a quote that ends with a heading
+        elif extra == 4:
+            lines[-1] = indent + marker + " ## Heading item"
         if depth > 0 and draw(st.integers(0, 2)) == 0:
             lines += draw(_nested_list(depth - 1, indent + pad))
     return lines
@@ -188,7 +200,7 @@ def _doc(draw, feat):
             blocks.append("- " + "#" * lvl + " " + h)
         else:
             blocks.append("> " + "#" * lvl + " " + h)
-    body = draw(textgen.doc(feat, depth=3, hi=4))
+    body = draw(textgen.doc(feat if draw(st.integers(0, 3)) else frozenset(feat - {"emph", "link"}), depth=3, hi=4))
     for _ in range(draw(st.integers(0, 2))):
         ls = draw(_nested_list(2))
         if draw(st.integers(0, 4)) == 0:
